@@ -13,6 +13,18 @@ for l in open(R + '/properties.jsonl'):
     props[p['id']] = p
 
 HINT = {
+    '7': ("Assume the property is already checked very thoroughly: model-based random tests of the whole public API of this feature (all overloads and "
+          "convenience wrappers, aliasing, self-assignment, reuse after close/clear/reset/failed operations, copies of configured objects), sweeps over every "
+          "length across the implementation's internal buffer sizes, numeric extremes, combinations of settings, hostile input between valid uses, "
+          "concurrency of independent objects, signals and short system calls, several time zones, symbolic links and aliased paths, long-lived "
+          "processes (tens of thousands of threads / connections), and coverage-guided fuzzing of every decoder/parser. Previous rounds planted 12 "
+          "changes for this property (listed above); nearly all obvious sites are used. Aim at what remains: a boundary that needs TWO independent "
+          "conditions at once (e.g. a specific length AND a specific content), the second or third invocation of something usually called once, "
+          "integer sign / width conversions on rarely taken branches, the order of evaluation of side effects inside one expression, defaults of "
+          "optional parameters, cleanup on early return, values that are valid but unusual (negative zero, INT_MIN, empty-but-not-null, the largest "
+          "legal field value), and helper functions in other files used by this feature in only one place. Read the whole anchored source (and the "
+          "helpers it calls) first and pick the least obvious place you can find; both changes must still satisfy every requirement above (unit "
+          "tests pass, demonstration fails with / passes without)."),
     '6': ("Assume the property is already checked by model-based random tests of the main API and of its rarely used overloads and convenience "
           "wrappers (aliasing between arguments, self-assignment, objects reused after close/clear/reset, const and non-const overloads), by sweeps "
           "over every length across the implementation's internal buffer sizes, by numeric extremes (giant arrays, subnormal and near-overflow "
